@@ -103,6 +103,9 @@ def C08unit (u : UnitType) : Bool := checkEnumTables true u
 def C08plain (u : UnitType) : Bool := checkEnumTables false u
 /-- C08: every spelling denotes the magnitude of the enumerator it maps to. -/
 def C08spell (u : UnitType) : Bool := checkSpellings u
+/-- C04 / C12 / C13 / C02: nothing is computed in a lower precision than the numeric type. -/
+def NoNarrowing (e : Entry) : Bool := checkNoNarrowing e
+
 /-- C10: scalar × direction constructors rebuild the vector component by component. -/
 def C10scale (e : Entry) : Bool := checkScaleDir classes e
 
